@@ -19,6 +19,8 @@ import (
 	"sort"
 	"strconv"
 	"strings"
+	"sync/atomic"
+	"time"
 
 	"go.uber.org/zap"
 
@@ -387,13 +389,35 @@ func seqTags(ops []string, impl string) []string {
 }
 
 func main() {
-	o := vh.ParseFlags()
 	logger.SetLevel(zap.FatalLevel)
-	if len(os.Args) > 1 && os.Args[1] == "child" {
+	if len(os.Args) > 4 && os.Args[1] == "child-stress" {
+		stressChild(os.Args[2:])
 		return
 	}
+	o := vh.ParseFlags()
 	rep := vh.NewReport("C18", o)
 	rng := vh.NewRNG(o.Seed)
+	// watchdog: a sequential call on the real package that never returns (e.g. a waiter spinning on an entry that
+	// was never removed) becomes an observation with the exact op list instead of a hung check
+	var progress atomic.Int64
+	var current atomic.Value
+	go func() {
+		last, stuck := int64(-1), 0
+		for {
+			time.Sleep(time.Second)
+			if p := progress.Load(); p == last {
+				stuck++
+			} else {
+				stuck, last = 0, p
+			}
+			if stuck >= 60 {
+				cur, _ := current.Load().(string)
+				rep.Violate(vh.Violation{Site: "cache/cache.go:getOrCreate", Class: "call-does-not-return", What: "a call on the real package did not return within 60 s", Replay: []string{cur}})
+				rep.Write(o.Out)
+				os.Exit(0)
+			}
+		}
+	}()
 
 	chSeq := vh.NewChannel("cache.seq", "real Cache[int]+Cleaner vs SV.Cache.runSeq on the same op list: per call the returned value / loader call / error / panic, Rotate and Cleanup results, getSize after every call, final buckets, generation sizes, payloads; non-trivial = a Cleanup pass freed something or a loader failed")
 	chRB := vh.NewChannel("cleaner.releaseBuckets", "all subsets of released buckets for every bucket count up to the bound: real Cleaner.ReleaseBuckets vs SV.Cache.releaseBuckets; non-trivial = at least one released and one live bucket")
@@ -401,6 +425,8 @@ func main() {
 	orc := vh.NewOracle("cache.property", "on the real package after every call: returned value was produced by a loader run for that (cache,key); a failed load is reported to its caller and the next lookup loads again; getSize = sum of live entry sizes; every unreleased cache is in the cleaner's bucket list; getSize <= limit after a Cleanup pass; non-trivial = the run contains a Cleanup that freed entries, a failed load or a ReleaseBuckets with a released bucket")
 
 	addSeq := func(limit uint64, ops []string, tags ...string) {
+		current.Store(fmt.Sprintf("seq %d 0 %s", limit, strings.Join(ops, ";")))
+		progress.Add(1)
 		req, impl, viol, err := runSeq(limit, ops)
 		if err != nil {
 			rep.Note("generator bug: %v", err)
@@ -409,6 +435,33 @@ func main() {
 		nt := strings.Contains(impl, "l+e") || strings.Contains(impl, "l+p") || (strings.Contains(impl, "c1.") && !strings.Contains(impl, ".0.0@"))
 		chSeq.Add(req, impl, nt, append(seqTags(ops, impl), tags...)...)
 		orc.Case(req, nt || strings.Contains(req, "x"), tags...)
+		if viol != nil {
+			rep.Violate(*viol)
+		}
+	}
+
+	chTr := vh.NewChannel("cache.trace", "forced interleavings on the real package (goroutines parked in their loaders / in wg.Wait between harness actions) vs SV.Cache.run on the same label sequence: what every Get / wake-up returned, getSize after every step, final state; non-trivial = some caller blocked on another caller's load or a load failed")
+	addTrace := func(limit uint64, acts []string, tags ...string) {
+		current.Store(fmt.Sprintf("sched %d %s", limit, strings.Join(acts, ";")))
+		progress.Add(1)
+		req, impl, viol, applied, err := runTrace(limit, acts)
+		if err != nil {
+			rep.Note("trace harness error on %v: %v", applied, err)
+			if strings.Contains(err.Error(), "no event within") || strings.Contains(err.Error(), "still blocked") {
+				rep.Violate(vh.Violation{Site: "cache/cache.go:getOrCreate", Class: "callers-blocked-forever", What: err.Error(), Replay: []string{fmt.Sprintf("sched %d %s", limit, strings.Join(acts, ";"))}})
+			} else {
+				chTr.Error = err.Error()
+			}
+			return
+		}
+		nt := strings.Contains(impl, ";w@") || strings.Contains(impl, ";e@") || strings.Contains(impl, ";p@")
+		chTr.Add(req, impl, nt, append(tags, fmt.Sprintf("steps=%d", len(applied)/10*10))...)
+		for _, k := range []string{";w@", ";e@", ";p@", "c1."} {
+			if strings.Contains(impl, k) {
+				chTr.Tag("saw=" + k)
+			}
+		}
+		orc.Case(req, nt, tags...)
 		if viol != nil {
 			rep.Violate(*viol)
 		}
@@ -425,6 +478,10 @@ func main() {
 			if len(f) == 4 && f[0] == "seq" {
 				lim, _ := strconv.ParseUint(f[1], 10, 64)
 				addSeq(lim, strings.Split(f[3], ";"), "replay")
+			}
+			if len(f) == 3 && f[0] == "sched" {
+				lim, _ := strconv.ParseUint(f[1], 10, 64)
+				addTrace(lim, strings.Split(f[2], ";"), "replay")
 			}
 		}
 	} else {
@@ -521,7 +578,38 @@ func main() {
 		}
 	}
 
+	if o.Replay == "" {
+		// 5. forced interleavings: directed schedules (single flight, failed loads with waiters, evictions and releases
+		//    while a load is in flight), then seeded random schedules
+		for _, sc := range []string{
+			"n;G0.0.1;G1.0.1;H2.0.1;F0.5.100",                 // two waiters get the loader's value
+			"n;H0.0.1;G1.0.1;G2.0.1;E0;F1.6.10;F2.7.10",       // failed load: one waiter re-loads, the other waits on it
+			"n;G0.0.1;G1.0.1;P0;P1",                           // panic, re-attempt, panic again
+			"n;G0.0.1;G1.0.2;F1.9.2000;r;C;F0.5.100",          // entry evicted while loading: saved with size 0
+			"n;G0.0.1;G1.0.1;G2.0.2;F2.9.2000;r;C;F0.5.100",   // ... with a waiter that still gets the value
+			"n;n;G0.0.1;G1.1.1;x1;F1.3.10;F0.4.10;b",          // release while loading
+			"n;G0.0.1;G1.0.2;F1.9.100;r;G1.0.2;z;F0.5.100",    // load across Rotate + CleanEmptyGenerations
+			"n;H0.0.1;G1.0.2;F1.9.2000;r;C;G2.0.1;E0;F2.7.100", // failed load after its entry was evicted and re-created
+		} {
+			addTrace(1000, strings.Split(sc, ";"), "directed")
+		}
+		nTr := o.Pick(600, 12000)
+		for i := 0; i < nTr; i++ {
+			limit, acts := genTrace(rng, rng.Range(6, 40))
+			addTrace(limit, acts, "random")
+		}
+	}
+	if o.Replay == "" {
+		// 6. concurrent callers and a maintainer, in a child process
+		for i := 0; i < o.Pick(1, 4); i++ {
+			runStress(rep, orc, o.Seed*10+int64(i), o.Pick(8, 16), o.Pick(20000, 150000))
+		}
+	}
+	progress.Add(1)
+	rep.AddChannel(chTr, o.Driver)
+	progress.Add(1)
 	rep.AddChannel(chRB, o.Driver)
+	progress.Add(1)
 	rep.AddChannel(chSeq, o.Driver)
 	rep.AddOracle(orc)
 	rep.Write(o.Out)
